@@ -158,6 +158,16 @@ def install_fault(sim, fault):
                     occurrence=fault.get('occ', 1), action=action, label=kind)
 
 
+def caller_killed_by_other(sim):
+    """when the calling (root) process was killed by a signal another process of the system under test sent - a server or a
+    helper process signalling a pid that is not its child's -> description of the sender, else None (a caller that signals itself
+    is the known C04 finding and is judged there)"""
+    k = getattr(sim.root_proc, 'last_signal_from', None)
+    if sim.root_proc.alive or not k or k['same_proc']:
+        return None
+    return k
+
+
 def kills_seen(sim):
     """process names that received a killing signal (from the event log)"""
     out = set()
